@@ -567,7 +567,7 @@ fn c02_order_fees_exact_ref_u8() {
     w8::order_fees();
 }
 
-//@ prop=C02 tier=thorough kind=hold
+//@ prop=C02 tier=experimental kind=hold
 //@ enc=FeeParams::base_position_fees, FeeParams::order_fees, FeeParams::fee, FeeParams::receiver_fee, Price::{has_zero,pick_price}, PositionFees accessors
 //@ bound=width-reduced T=u16, DECIMALS=2: as c02_order_fees_exact_ref_u8 with every u16 value
 //@ timeout=5400 mem=30
@@ -617,7 +617,7 @@ fn c02_position_fees_accessors_add_up_u8() {
     w8::position_fees_accessors();
 }
 
-//@ prop=C02 tier=thorough kind=hold
+//@ prop=C02 tier=experimental kind=hold
 //@ enc=PositionFees::{for_receiver,for_pool,total_cost_amount,total_cost_excluding_funding,set_borrowing_fees,set_liquidation_fees,set_funding_fees}, FeeParams::base_position_fees, LiquidationFeeParams::fee
 //@ bound=width-reduced T=u16, DECIMALS=2: every u16 size, borrowing value, funding amount, non-zero prices, all factors in 0..=UNIT, liquidation fee present or absent
 //@ timeout=5400 mem=30
